@@ -129,5 +129,111 @@ for case in payload.get("big_cases", []):
         big_out.append({"ok": True, "obs": obs})
     except Exception as e:
         big_out.append({"ok": False, "error": "%s: %s" % (type(e).__name__, e), "obs": obs})
+
+
+def _clear_prior():
+    for _n in dir(cr):
+        if _n.startswith("GLOBAL_PRIOR"):
+            getattr(cr, _n).clear()
+
+
+# ---- the interaction-feature call site: compute_combined_features over a sequence of batches with the same columns; the
+# ---- combinations it selected are read off the columns it appended (nothing is read from the module's storages) ----
+feat_out = []
+for case in payload.get("feat_cases", []):
+    _clear_prior()
+    rs = np.random.RandomState(case["seed"])
+    obs = []
+    try:
+        for cap in case["caps"]:
+            batch = {}
+            for site in case["sites"]:
+                args = types.SimpleNamespace(
+                    heuristic=case["heuristic"], label_column=case["label"], interaction_order=case["order"],
+                    combination_number_upper_bound=cap, reference_model_JSON="", target_ranking_only="True",
+                    mi_stratified_sampling_ratio=1.0)
+                df = pd.DataFrame({c: [str(v) for v in rs.randint(0, 3, size=case["nrows"])] for c in case["columns"]})
+                res = cr.compute_combined_features(df, args, FakeBar(), site == "rel")
+                cols = list(res.columns)
+                batch[site] = {"new": [c for c in cols[len(case["columns"]):]], "kept": cols[:len(case["columns"])] == case["columns"],
+                               "cap_after": args.combination_number_upper_bound}
+            if case.get("interleave_pairs"):
+                # the pair space is sampled in between, as compute_batch_ranking does (separate storage since fix 45d13a2)
+                pa = types.SimpleNamespace(combination_number_upper_bound=max(1, cap))
+                cr.prior_combinations_sample(list(__import__("itertools").combinations(case["columns"], 2)), pa)
+            obs.append(batch)
+        feat_out.append({"ok": True, "obs": obs})
+    except Exception as e:
+        import traceback
+        feat_out.append({"ok": False, "error": "%s: %s" % (type(e).__name__, e), "tb": traceback.format_exc()[-1500:], "obs": obs})
+
+# ---- the reported counts: the real ranking task end to end (serial pool), per-batch evaluated pairs recorded at
+# ---- compute_batch_ranking, against combination_estimation_counts.json ----
+stream_out = []
+if payload.get("stream_cases"):
+    import os
+    import shutil
+    sys.path.insert(0, os.path.dirname(os.path.abspath(__file__)))
+    import impl_c08_lib as L8
+    tr = L8.tr
+    root = payload["root"]
+    for ci, case in enumerate(payload["stream_cases"]):
+        cdir = os.path.join(root, "s%d" % ci)
+        shutil.rmtree(cdir, ignore_errors=True)
+        os.makedirs(os.path.join(cdir, "in"))
+        rs = np.random.RandomState(case["seed"])
+        with open(os.path.join(cdir, "in", "data.csv"), "w") as f:
+            f.write(",".join(case["cols"]) + "\n")
+            for _ in range(case["nrows"]):
+                f.write(",".join(str(v) for v in rs.randint(0, 3, size=len(case["cols"]))) + "\n")
+        out_dir = os.path.join(cdir, "out")
+        here = os.getcwd()
+        os.chdir(cdir)
+        L8.reset_globals()
+        _clear_prior()
+        argv = ["--task", "ranking", "--data_path", os.path.join(cdir, "in"), "--data_source", "csv-raw",
+                "--output_folder", out_dir, "--minibatch_size", str(case["B"]), "--subsampling", "1",
+                "--heuristic", case["heuristic"], "--target_ranking_only", case["tro"],
+                "--label_column", case["cols"][-1], "--include_cardinality_in_feature_names", "False",
+                "--disable_tqdm", "True", "--num_threads", "1", "--interaction_order", str(case["order"]),
+                "--combination_number_upper_bound", str(case["cap"]), "--include_noise_baseline_features", "False"]
+        args, _src = L8.build_args(argv)
+        o = {"ok": True, "batches": []}
+        real_cbr = cr.compute_batch_ranking
+        real_pool = getattr(tr, "Pool", None)
+
+        def cbr_wrapper(*a, **k):
+            ret = real_cbr(*a, **k)
+            o["batches"].append([[str(x), str(y)] for x, y, _z in ret[0].triplet_scores])
+            return ret
+        cr.compute_batch_ranking = cbr_wrapper
+        tr.Pool = lambda n: L8.SerialPool(1)
+        try:
+            try:
+                tr.outrank_task_conduct_ranking(args)
+            except SystemExit:
+                pass
+            except FileNotFoundError as e:
+                # known observation (DESIGN 9.2 / C09): with --heuristic Constant no checkpoint is written and the task ends at
+                # os.remove('ranking_checkpoint_tmp.tsv') AFTER all outputs, the report included, have been written
+                if "ranking_checkpoint_tmp" not in str(e):
+                    raise
+                o["late_error"] = str(e)
+            with open(os.path.join(out_dir, "combination_estimation_counts.json")) as f:
+                o["report"] = json.load(f)
+        except BaseException as e:
+            import traceback
+            o["ok"] = False
+            o["error"] = "%s: %s" % (type(e).__name__, e)
+            o["tb"] = traceback.format_exc()[-1500:]
+        finally:
+            cr.compute_batch_ranking = real_cbr
+            if real_pool is not None:
+                tr.Pool = real_pool
+            os.chdir(here)
+            shutil.rmtree(cdir, ignore_errors=True)
+        stream_out.append(o)
+    _clear_prior()
+
 cr.GLOBAL_PRIOR_COMB_COUNTS.clear()
-print("@@RESULT " + json.dumps({"results": out, "pipe": pipe_out, "big": big_out}))
+print("@@RESULT " + json.dumps({"results": out, "pipe": pipe_out, "big": big_out, "feat": feat_out, "stream": stream_out}))
